@@ -275,6 +275,14 @@ def run_misc(case, ctx, g):
     else:
         ttm = op.endswith('_m')
         x = gens.make_tt(N, R, dt, case['vals'], g, M=M if ttm else None)
+        mixed = dt.is_complex and case['seed'] % 3 == 0
+        if mixed:
+            # a complex-valued object whose leading cores are stored REAL (what kron(real, complex) or rank1TT of mixed vectors produce)
+            rr_ = random.Random(case['seed'])
+            j_ = rr_.randint(1, max(1, d - 1))      # real prefix of length j_, complex suffix (the layout full() supports on the unchanged tree)
+            cs_ = [c.real.clone() if k_ < j_ else c for k_, c in enumerate(x.cores)]
+            x = torchtt.TT(cs_)
+            ctx.count('operand:mixed-real-complex-cores')
         if op.startswith('conj'):
             ref = dn.D(x).conj()
             ctx.count('conj')
@@ -295,7 +303,8 @@ def run_misc(case, ctx, g):
         return
     exact = gens.exact_ok(dt, gens.abs_bound(x) * 3 ** 4 * 5 ** 4)
     compare(ctx, key, got, ref, exact, dn.ueps(dt), dn.s_rep(x) * 100, what)
-    check_dtype(ctx, key, res, dt, what)
+    if not (op in ('conj', 'clone', 'conj_m', 'clone_m') and mixed):
+        check_dtype(ctx, key, res, dt, what)
     if bool(res.is_ttm) != want_ttm:
         ctx.viol(key + '/clause=kind', '%s: result is_ttm=%s' % (what, res.is_ttm))
     if op.startswith('clone'):
